@@ -255,8 +255,12 @@ func cmdCheck(args []string) {
 	}
 
 	// ---- lemmas proved in Lean and used as axioms: each file must have a valid check record
-	var leanUsed []string
+	var leanUsed, defAxioms []string
 	for ref := range v.leanRefs {
+		if strings.HasPrefix(ref, "def:") {
+			defAxioms = append(defAxioms, ref)
+			continue
+		}
 		leanUsed = append(leanUsed, ref)
 		file := strings.Split(strings.TrimPrefix(ref, "lean:"), ":")[0]
 		if err := leanRecordOK(*vdir, file); err != nil {
@@ -267,6 +271,10 @@ func cmdCheck(args []string) {
 		}
 	}
 	sort.Strings(leanUsed)
+	sort.Strings(defAxioms)
+	for _, d := range defAxioms {
+		spec.Assumptions = append(spec.Assumptions, "definitional axiom (recursive definition of a ghost function, conservative): "+d)
+	}
 	for a := range v.assumed {
 		spec.Assumptions = append(spec.Assumptions, "assume clause: "+a)
 	}
